@@ -19,7 +19,7 @@ SPEC = {
     "required": ["shot_refinement", "refinement_invariant", "step_refinement", "trace_iff_run", "runs_iff_oracle",
                  "gateSemOK_basis_gates", "shot_refinement_basis_gates", "gateSemOK_all_terms", "shot_refinement_unconditional",
                  "shot_refinement_complex", "complex_is_model", "hyps_complex", "histogram_gf_unconditional",
-                 "measure_all_repeated_target_ors", "stab_shot_refinement", "stab_measure_per_shot", "localWeights_of_field", "counts_invariant",
+                 "measure_all_repeated_target_ors", "stab_shot_refinement", "stab_measure_per_shot", "stab_shot_refinement_generated", "localWeights_of_field", "counts_invariant",
                  "collapse_is_project_rescale", "weight_is_born", "collapse_exact", "measure_per_shot", "peek_leaves_state",
                  "peek_all_leaves_state", "reset_per_shot", "reset_leaves_qubit_zero", "stab_peek_all_bell_impossible_value"],
     "drivers": ["drv_c02"],
@@ -52,7 +52,8 @@ def run(ctx):
         "n < 64 for composites); GateSemOK is proved for them (gateSemOK_all_terms), no gate hypothesis left",
         "D14 excluded (distinct measure_all/peek_all targets, OpOK) and witnessed (measure_all_repeated_target_ors); LocalWeights (any "
         "field) needed for reset_all only",
-        "stabilizer backend: stab_shot_refinement is RELATIVE TO the explicit tableau contract TableauOK (Tab.new/applyGate/measure "
+        "stabilizer backend: stab_shot_refinement_generated (generated tables, Q8) has the single hypothesis DetShapeHolds (C03); "
+        "stab_shot_refinement is RELATIVE TO the explicit tableau contract TableauOK (Tab.new/applyGate/measure "
         "classification/collapse/reset follow the reference semantics: the statements of C03, not proved here); peek_all excluded "
         "(D5, witnessed: stab_peek_all_bell_impossible_value); measure_all needs n distinct targets",
         "IEEE-754 rounding outside the model (agreement to 1e-9)",
